@@ -38,8 +38,10 @@ fn('dsplib::(anon)::_welch', SP, sig='(const dsplib::arr_cmplx &, const dsplib::
    lets={'h': 'tdiv(nfft, 2)', 'k0': 'ghost_int("entry")'},
    ensures=[('lengths', 'And(result.pxx.len == nfft, result.f.len == nfft)'),
             ('labels', 'result.f[k0] * ToReal(nfft) == ToReal(k0 - h + 1)'),
-            # what the implementation returns today: DFT order (pinned so that any other reordering is reported)
-            ('dft_order', 'result.pxx[k0] == P[k0]'),
+            # companion of the recorded finding below: the values are either in the order the labels state (the property) or in
+            # DFT order (the recorded defect); any third ordering is a new violation. Holds on the current tree and on a
+            # tree where the order has been repaired
+            ('dft_or_label_order', 'Or(result.pxx[k0] == P[k0], result.pxx[k0] == P[tmod(k0 - h + 1 + nfft, nfft)])'),
             # the property: the value at entry k0 belongs to the frequency its label states. Known finding (the values are
             # in DFT order while the axis is centred; the test helpers rely on the DFT order, so it is recorded, not repaired)
             ('label_matches_bin', 'result.pxx[k0] == P[tmod(k0 - h + 1 + nfft, nfft)]')])
